@@ -36,6 +36,13 @@
 // it (a custom one, a stock http.Transport with the scheme registered, one that
 // forwards to the loopback servers). Only https may carry credentials that
 // require transport security.
+//
+// Plus WHERE THE REQUEST COMES FROM as the HTTP server sees it (arrive.go): the
+// shape of Request.RemoteAddr {IPv4:port, bare IP, [IPv6]:port, name:port, "@",
+// a path, "pipe", empty, ...} set by the listener {loopback TCP, Unix-domain
+// socket} or by a middleware in front of the httpgrpc handler, with and
+// without TLS, unary and streaming: the handler's peer reports that address,
+// and TLS info on TLS.
 package main
 
 import (
@@ -98,6 +105,10 @@ type caseT struct {
 	// caller and/or client interceptors wrapped around the channel (supply.go).
 	// PeerOpt and HdrOpt are not used then.
 	Via *viaT `json:"via,omitempty"`
+	// Arrive, when set, says where the request comes from as the HTTP server
+	// sees it: what the server listens on and whether a middleware in front of
+	// the httpgrpc handler has replaced Request.RemoteAddr (arrive.go)
+	Arrive *arriveT `json:"arrive,omitempty"`
 }
 
 // mergeT: the logical metadata is always caller {a:[1,2], shared:[caller-v(,caller-w)]}
@@ -475,18 +486,31 @@ func (e *env) server(kind string) *httptest.Server {
 		return s
 	}
 	var s *httptest.Server
-	switch kind {
-	case "http-loopback":
-		s = httptest.NewUnstartedServer(e)
+	base := strings.TrimSuffix(kind, unixSuffix)
+	unstarted := func() *httptest.Server {
+		s := httptest.NewUnstartedServer(e)
 		s.Config.ErrorLog = quiet
+		if base != kind {
+			// same server, but listening on a Unix-domain socket (arrive.go)
+			ul, err := listenUnix()
+			if err != nil {
+				fmt.Fprintln(os.Stderr, "INCONCLUSIVE: cannot listen on a Unix-domain socket:", err)
+				os.Exit(2)
+			}
+			s.Listener.Close()
+			s.Listener = ul
+		}
+		return s
+	}
+	switch base {
+	case "http-loopback":
+		s = unstarted()
 		s.Start()
 	case "https":
-		s = httptest.NewUnstartedServer(e)
-		s.Config.ErrorLog = quiet
+		s = unstarted()
 		s.StartTLS()
 	case "https-h2":
-		s = httptest.NewUnstartedServer(e)
-		s.Config.ErrorLog = quiet
+		s = unstarted()
 		s.EnableHTTP2 = true
 		s.StartTLS()
 	}
@@ -589,7 +613,11 @@ func runCtx(e *env, c caseT, base context.Context, tgs []*targetSet) (o obsT) {
 				http.Error(w, "shedding load", http.StatusServiceUnavailable)
 			})
 		}
-		return h
+		return e.remoteAddrMiddleware(c.Arrive, h)
+	}
+	if err := c.Arrive.check(c.Transport); err != nil {
+		o.Panic = "checker: " + err.Error()
+		return
 	}
 	s := &seen{}
 	desc := service(s, c.Tag)
@@ -629,21 +657,26 @@ func runCtx(e *env, c caseT, base context.Context, tgs []*targetSet) (o obsT) {
 		e.cur = front(srv)
 		e.lastRemote, e.lastConn = "", ""
 		e.mu.Unlock()
-		ts := e.server(c.Transport)
+		ts := e.server(c.Transport + c.Arrive.serverSuffix())
 		tr := ts.Client().Transport
 		if t, ok := tr.(*http.Transport); ok {
 			t.CloseIdleConnections() // every case gets its own connection (and handshake)
 		}
-		realAddr := ts.Listener.Addr().String()
+		network, realAddr := "tcp", ts.Listener.Addr().String()
 		ip4, port, _ := net.SplitHostPort(realAddr)
+		if c.Arrive.unix() {
+			// the server listens on a Unix-domain socket; the base URL keeps naming
+			// a host the server's certificate is valid for
+			network, ip4, port = "unix", "127.0.0.1", "8443"
+		}
 		scheme := ts.URL[:strings.Index(ts.URL, "://")]
-		if c.Host != "" && c.Host != "v4" {
+		if c.Arrive.unix() || (c.Host != "" && c.Host != "v4") {
 			// same client configuration (root CAs, HTTP/2 setting), but the dialer
 			// goes to the real listener whatever host the URL names
 			t2 := tr.(*http.Transport).Clone()
 			t2.DialContext = func(ctx context.Context, _, _ string) (net.Conn, error) {
 				var d net.Dialer
-				return d.DialContext(ctx, "tcp", realAddr)
+				return d.DialContext(ctx, network, realAddr)
 			}
 			tr = t2
 			cleanup = t2.CloseIdleConnections
@@ -669,14 +702,31 @@ func runCtx(e *env, c caseT, base context.Context, tgs []*targetSet) (o obsT) {
 		o.setWant(u)
 		cc = &httpgrpc.Channel{Transport: crt, BaseURL: u}
 	case "grpc-go":
-		lis := bufconn.Listen(1 << 16)
+		var lis net.Listener
+		dial := func(ctx context.Context) (net.Conn, error) { return nil, errors.New("no listener") }
+		if c.Arrive.unix() {
+			// reference for a server on a Unix-domain socket
+			ul, err := listenUnix()
+			if err != nil {
+				o.Panic = "checker: " + err.Error()
+				return
+			}
+			lis = ul
+			dial = func(ctx context.Context) (net.Conn, error) {
+				var d net.Dialer
+				return d.DialContext(ctx, "unix", ul.Addr().String())
+			}
+		} else {
+			bl := bufconn.Listen(1 << 16)
+			lis, dial = bl, bl.DialContext
+		}
 		gs := grpc.NewServer()
 		gs.RegisterService(desc, common.Impl{})
 		go gs.Serve(lis)
 		// the reference for interceptor-supplied options: the same interceptor
 		// functions installed the grpc-go way (dial options), nothing of the
 		// library under test in between
-		dopts := append([]grpc.DialOption{grpc.WithContextDialer(func(ctx context.Context, _ string) (net.Conn, error) { return lis.DialContext(ctx) }),
+		dopts := append([]grpc.DialOption{grpc.WithContextDialer(func(ctx context.Context, _ string) (net.Conn, error) { return dial(ctx) }),
 			grpc.WithTransportCredentials(insecure.NewCredentials())}, vs.dialOptions(c.Op)...)
 		conn, err := grpc.Dial("bufnet", dopts...)
 		if err != nil {
@@ -1012,11 +1062,21 @@ func check0(c caseT, o obsT) (fs []finding) {
 	// handler's peer
 	f = finding{clause: "handler-peer-address"}
 	switch {
+	case c.Arrive != nil && c.overHTTP() && o.Remote == "":
+		// the HTTP server itself has no remote address for this request (arrive.go):
+		// there is nothing to report; the TLS clause below still applies
+		f.clause = "handler-peer-address-unknown-to-http-server"
 	case !o.HPeerOK:
 		f.fail, f.detail = "absent", "peer.FromContext in the handler found nothing"
+		if c.Arrive != nil {
+			f.detail += fmt.Sprintf(" (the httpgrpc handler got the request with RemoteAddr %q: %s)", o.Remote, c.Arrive)
+		}
 	case o.hPeerNil || o.HPeerAddr == "":
 		f.fail, f.detail = "no-address", "handler's peer has no address"
-	case c.overHTTP() && o.HPeerAddr != o.Remote:
+		if c.Arrive != nil {
+			f.detail += fmt.Sprintf(" (the httpgrpc handler got the request with RemoteAddr %q: %s)", o.Remote, c.Arrive)
+		}
+	case c.overHTTP() && !sameRemote(o.HPeerAddr, o.Remote):
 		f.fail, f.detail = "address-mismatch", fmt.Sprintf("handler's peer address %q, the HTTP server saw the request from %q", o.HPeerAddr, o.Remote)
 	}
 	fs = append(fs, f)
@@ -1024,6 +1084,9 @@ func check0(c caseT, o obsT) (fs []finding) {
 		f = finding{clause: "handler-peer-tls-info"}
 		if o.HPeerAuth != "tls" {
 			f.fail, f.detail = "no-tls-authinfo", fmt.Sprintf("connection uses TLS but the handler's peer AuthInfo is %q", o.HPeerAuth)
+			if c.Arrive != nil {
+				f.detail += fmt.Sprintf(" (handler's peer present: %v; the httpgrpc handler got the request with RemoteAddr %q: %s)", o.HPeerOK, o.Remote, c.Arrive)
+			}
 		}
 		fs = append(fs, f)
 	}
@@ -1619,8 +1682,26 @@ func main() {
 		fmt.Fprintln(os.Stderr, "INCONCLUSIVE: oracle calibration:", err)
 		os.Exit(2)
 	}
+	calibratedArrive, err := calibrateArrive()
+	if err != nil {
+		fmt.Fprintln(os.Stderr, "INCONCLUSIVE: oracle calibration:", err)
+		os.Exit(2)
+	}
 	connCompared = 0
 	refRuns := 0
+	if rep.Tier == "thorough" {
+		// a server on a Unix-domain socket: grpc-go's handler peer
+		for _, c := range arriveCases("thorough", true) {
+			o := guarded(e, c)
+			refRuns++
+			for _, f := range check(c, o) {
+				if f.fail != "" {
+					fmt.Fprintf(os.Stderr, "INCONCLUSIVE: the oracle rejects grpc-go's own behaviour on %+v (%v): %s %s: %s\n", c, c.Arrive, f.clause, f.fail, f.detail)
+					os.Exit(2)
+				}
+			}
+		}
+	}
 	if rep.Tier == "thorough" {
 		// several credentials options with properties of their own against grpc-go
 		for _, c := range mixCases("thorough", true) {
@@ -1842,6 +1923,45 @@ func main() {
 		sort.Strings(schemeAsSent[sch])
 	}
 
+	// where the request comes from as the HTTP server sees it (arrive.go)
+	arriveG := newGrouper(arriveDimNames) // scope: the clause
+	nArrive, arriveReached, arriveShapes, arriveTLS := 0, map[string]bool{}, map[string]map[string]bool{}, 0
+	for _, c := range arriveCases(rep.Tier, false) {
+		o := guarded(e, c)
+		evals++
+		nArrive++
+		ds := arriveDims(c, o)
+		if lit, rewritten := remoteLiteral(c.Arrive.Rewrite); o.HandlerRan > 0 && (!rewritten || o.Remote == lit) {
+			// the httpgrpc handler was handed a request with the RemoteAddr of the case
+			k := fmt.Sprintf("%+v %+v", c, *c.Arrive)
+			arriveReached[k], distinct[k] = true, true
+			if arriveShapes[ds[0][1]] == nil {
+				arriveShapes[ds[0][1]] = map[string]bool{}
+			}
+			arriveShapes[ds[0][1]][c.Arrive.setBy()] = true
+			if c.connTLS() {
+				arriveTLS++
+			}
+		}
+		for _, f := range check(c, o) {
+			clauseCount[f.clause]++
+			arriveG.add("arrive|"+f.clause, ds, f, c)
+		}
+		sk := "arrive|" + c.Transport + "|" + c.Arrive.setBy()
+		if !sampled[sk] && c.Op == "bidi" && c.Creds == "both" && (c.Arrive.Rewrite == "" || c.Arrive.Rewrite == "ip4") {
+			sampled[sk] = true
+			samples = append(samples, map[string]interface{}{"case": c, "observed": o})
+		}
+	}
+	arriveG.report(rep, "C13|", " for every shape of Request.RemoteAddr / who set it / transport / kind / credential the clause applies to")
+	shapesSeen := map[string][]string{}
+	for sh, m := range arriveShapes {
+		for by := range m {
+			shapesSeen[sh] = append(shapesSeen[sh], by)
+		}
+		sort.Strings(shapesSeen[sh])
+	}
+
 	// sequences of calls sharing the caller's context
 	nSeq, nSeqCalls, nKeyCaseSeq := 0, 0, 0
 	keyCaseSeq := newGrouper([]string{"call", "earlier-cred-key", "cred-key", "caller-key", "key-relation", "caller-build", "caller-vals"}) // scope transport
@@ -1939,6 +2059,7 @@ func main() {
 			"Plus WHO SUPPLIES the call options: what the caller passes {nothing, the credentials and a peer target} x 1 or 2 grpchan.InterceptClientConn wrappers around the channel, each installed for {the kind of the call only (the other interceptor nil), both kinds, the other kind only (the call passes through it)} (two wrappers: both kinds, plus the combinations with one wrapper of the other kind) and each adding {nothing, grpc.PerRPCCredentials, grpc.Peer, both} to the options it passes to the invoker/streamer" + map[bool]string{true: ", after or in front of the options it was given", false: " (appended)"}[rep.Tier == "thorough"] + "; without the configurations in which nobody passes anything, or nobody passes the credentials of a case that has some. CROSSED with every transport x every op x every credential {absent, {require security or not} x {nil, empty, one, overlap, both, error}} x caller metadata {absent, present}; host spelling IPv4:port and no header option (crossed with the rest in the main product). Every supplier has its own credential object (an interceptor's marks its values @L1/@L2) and its own peer.Peer. Same oracle as for single calls: the metadata of the credential in effect (the last grpc.PerRPCCredentials of the option list the channel is given) reaches the handler merged with the caller's; credentials requiring security refuse the call on http before any request (counting RoundTripper); every peer target anybody passed is filled (address; TLS info on TLS, none on cleartext). " +
 			"Plus the base URL's SCHEME: {http, https, HTTP, Https, h2c, http+unix, ws, empty} as a url.URL literal x RoundTripper accepting it {custom RoundTripper serving in memory, stock http.Transport with the scheme registered by RegisterProtocol, RoundTripper forwarding https requests to the TLS loopback server and all others in the clear to the plain one} x host {IPv4:port, IPv4 without port} x every op x every credential x caller metadata x peer option; plus the alphabet swept around interceptor-supplied credentials (custom RoundTripper, one wrapper adding credentials + peer, caller passing nothing / everything, require or not, every op). Oracle: scheme https carries everything; every scheme that is not https in any spelling (HTTP and the empty one included) refuses credentials requiring security with zero requests handed to the RoundTripper and carries all other calls; Https (https in another case) may refuse (the statement read literally, what the library does) or carry (RFC 3986: schemes are case-insensitive, net/http speaks TLS for it). Peer clauses as everywhere; the in-memory RoundTrippers have no TLS whatever the URL says, so no TLS info may be reported there. " +
 			"Plus SEVERAL grpc.PerRPCCredentials options in one call, EACH WITH PROPERTIES OF ITS OWN: option lists [caller, caller2] (the caller passes two, no wrapper), [caller, L1], [L1, L2], [caller, L1, L2]" + map[bool]string{true: ", the same with the interceptors' options in front, a wrapper installed for the kind of the call only, [caller, caller2, L1]", false: ""}[rep.Tier == "thorough"] + " x every assignment of (metadata kind from {one: the key tok all credentials share, own: a key only this credential has, empty map, error}, requires security or not) to every position" + map[bool]string{true: "", false: " (lists of three: kinds {one, own})"}[rep.Tier == "thorough"] + " x every transport x every op x caller metadata {absent, present}; plus the scheme alphabet around [caller, caller2] with the requirement on the first only / the second only. Oracle: the last option of the list is in effect (grpc-go; thorough requires the oracle to accept grpc-go on this grammar) and the single-call clauses are asked of it (requires security and the URL is not https: fails before any request; its error fails the call; else its metadata reaches the handler merged with the caller's); of a credential NOT in effect that requires security, on a URL that is not https, no metadata value may be handed to the RoundTripper or reach the handler (clause " + clauseNotInEffect + "); refusing such a call before any request, or failing a call because a credential not in effect returned an error, conforms as well. " +
+			"Plus WHERE THE REQUEST COMES FROM as the HTTP server sees it: Request.RemoteAddr of the shapes {IPv4:port (what every other case has), bare IPv4, bare IPv6, [IPv6]:port, name:port, \"@\" (client of a Unix-domain socket), empty" + map[bool]string{true: ", [IPv6%zone]:port, bare name, a socket path, \"pipe\"", false: ""}[rep.Tier == "thorough"] + "} set by a middleware in front of the httpgrpc handler (as 'real IP' middlewares and PROXY-protocol listeners do), or left as the listener {loopback TCP, Unix-domain socket} reported it" + map[bool]string{true: ", or set by the middleware behind the Unix-domain listener", false: ""}[rep.Tier == "thorough"] + "; x {in-memory RoundTripper (middleware only), http loopback, https loopback" + map[bool]string{true: ", https with HTTP/2", false: ""}[rep.Tier == "thorough"] + "} x every op x {no credentials, credentials with metadata} with caller metadata and the peer option. Oracle: all single-call clauses; the handler's peer is present and its address says what the HTTP server knows as the remote address (the same string, or the same IP and port spelled differently, or a bare IP with any port); TLS info whenever the connection is TLS, whatever RemoteAddr looks like; with an empty RemoteAddr (the HTTP server knows no remote address) only the TLS clause is asked. thorough also runs grpc-go with its server on a Unix-domain socket through the same clauses. " +
 			"A case is non-trivial when the credential object was actually consulted (its RequireTransportSecurity/GetRequestMetadata call counters are > 0), or the grpc.Peer target was written, or the connection was TLS (so the TLS-info clause of the handler's peer applies); distinct by all case parameters.",
 		"clause_evaluations":          clauseCount,
 		"sequences":                   nSeq,
@@ -1983,12 +2104,22 @@ func main() {
 			"scheme_as_handed_to_round_tripper": schemeAsSent,
 			"rule":                              "distinct cases of the scheme grammar in which the credential's RequireTransportSecurity was called, i.e. the library decided whether that base URL may carry it; scheme_as_handed_to_round_tripper: per base-URL scheme the URL scheme of the requests the RoundTripper got in those cases",
 		},
+		"request_arrival": map[string]interface{}{
+			"alphabet": len(remoteAlphabet),
+			"cases":    nArrive,
+			"distinct_handler_ran_with_that_remote_addr": len(arriveReached),
+			"of_those_on_tls":               arriveTLS,
+			"remote_addr_shape_seen_set_by": shapesSeen,
+			"rule":                          "distinct cases of the arrival grammar in which the handler ran and the RemoteAddr the HTTP side recorded right before the httpgrpc handler is the one of the case (the middleware's literal, or whatever the listener reported), i.e. the handler's peer was derived from a request of that shape; remote_addr_shape_seen_set_by: per shape (of the literal, or classified from the observed listener value) who set it",
+			"oracle_calibration_cases":      calibratedArrive,
+		},
 		"oracle_calibration_cases_suppliers_and_schemes": calibratedSupply,
 		"tls_info_connection_identity_compared":          connCompared,
 		"samples":                                        samples,
 		"exhaustive":                                     true,
 	}, []string{
-		"loopback TCP/TLS only where the real net/http + crypto/tls stack is the subject (reply.TLS, r.TLS, RemoteAddr); every case uses a fresh connection",
+		"loopback TCP/TLS only where the real net/http + crypto/tls stack is the subject (reply.TLS, r.TLS, RemoteAddr); every case uses a fresh connection; the arrival grammar also uses Unix-domain sockets (abstract namespace) for the same reason",
+		"the remote address of the handler's peer is compared with Request.RemoteAddr as the httpgrpc handler received it (net/http documents no format for it: it is what the listener's connections report, or what a handler in front put there); its concrete net.Addr type and Network() are not constrained; when RemoteAddr is empty no address is demanded (the peer's TLS info still is)",
 		"in-process with credentials that require transport security: both refusing and accepting are taken as conforming (the statement only speaks about the HTTP base URL)",
 		"metadata merge is demanded as multiset inclusion per key (all caller values and all credential values present), order and extra keys free",
 		"metadata keys are case-insensitive (grpc-go lower-cases the keys of a credential's map and of the outgoing metadata; thorough runs the whole key-case grammar against grpc-go over bufconn and requires the oracle to accept it): the handler has to find the values under the lower-cased key however caller and credential spelled it",
